@@ -533,7 +533,7 @@ func main() {
 	r = explore.Start("C19")
 	dcs := dynConfigs()
 	if r.Replay != "" {
-		r.Fault("replay: see detail; not implemented")
+		r.ReplayBySearch()
 	}
 	if idx, n, arg, ok := r.Worker(); ok {
 		r.Watchdog(60 * time.Second)
